@@ -102,7 +102,28 @@ def build(case, geom=None):
         kw["real"] = case["real"]
     if case.get("extra"):
         kw.update(case["extra"])
+    # frame flags carried by the molecule (psi4 no_com / no_reorient / symmetry): orientation must act all the same
+    for k, v in (case.get("flags") or {}).items():
+        kw[k] = v
     return Molecule(**kw), kw
+
+
+def psi4_text(case, geom):
+    """the molecule as a psi4 string (only for cases without isotopes / explicit masses), with the frame flags spelled out"""
+    if case.get("mass_numbers") or case.get("masses") or case.get("extra"):
+        return None
+    fl = case.get("flags") or {}
+    lines = ["units bohr"]
+    if fl.get("fix_com"):
+        lines.append("no_com")
+    if fl.get("fix_orientation"):
+        lines.append("no_reorient")
+    if fl.get("fix_symmetry"):
+        lines.append("symmetry " + fl["fix_symmetry"])
+    real = case.get("real") or [True] * len(case["symbols"])
+    for sym, r, p in zip(case["symbols"], real, geom):
+        lines.append(("" if r else "@") + sym + " " + " ".join(repr(float(c)) for c in p))
+    return "\n".join(lines) + "\n"
 
 
 def inertia_ref(geom, masses):
@@ -188,6 +209,33 @@ def oracle(case):
     o3 = Molecule.from_data(kw, dtype="dict", orient=True)
     if np.abs(np.array(o3.geometry) - g1).max() > 0:
         bad("Molecule.from_data(..., orient=True) differs from orient_molecule()", float(np.abs(np.array(o3.geometry) - g1).max()))
+    for nm, o in (("Molecule(orient=True, ...)", o2), ("Molecule.from_data(dict, orient=True)", o3)):
+        da = o.dict()
+        for k in ("fix_com", "fix_orientation", "fix_symmetry", "symbols", "real"):
+            a, b = d0.get(k), da.get(k)
+            if not (np.array_equal(a, b) if isinstance(a, np.ndarray) or isinstance(b, np.ndarray) else a == b):
+                bad(f"{nm}: field {k} differs from the unoriented molecule", [repr(a), repr(b)])
+    txt = psi4_text(case, g0)
+    if txt is not None:
+        o4 = Molecule.from_data(txt, orient=True)
+        g4 = np.array(o4.geometry, dtype=float)
+        fl = case.get("flags") or {}
+        for k in ("fix_com", "fix_orientation"):
+            if bool(getattr(o4, k)) != bool(fl.get(k, False)):
+                bad(f"psi4 text route: flag {k} not carried", [getattr(o4, k), fl.get(k, False)])
+        # the text route re-derives masses from the symbols, so judge it on its own: centred, diagonal, phase, same shape
+        w4 = np.array(o4.masses, dtype=float)
+        com4 = (w4[:, None] * g4).sum(axis=0) / w4.sum()
+        if np.abs(com4).max() > 1e-7:
+            bad("psi4 text route (from_data(text, orient=True)): centre of mass is not at the origin", com4.tolist())
+        t4 = inertia_ref(g4, w4)
+        s4 = 1.0 + float(np.abs(t4).max())
+        if max(abs(t4[0][1]), abs(t4[0][2]), abs(t4[1][2])) > 1e-6 * s4 or not (t4[0][0] <= t4[1][1] + 1e-6 * s4 and t4[1][1] <= t4[2][2] + 1e-6 * s4):
+            bad("psi4 text route (from_data(text, orient=True)): inertia tensor is not diagonal ascending", t4.tolist())
+        if n > 1 and np.abs(pair_dists(g4) - pair_dists(g0)).max() > 1e-7 * scale:
+            bad("psi4 text route: an interatomic distance changed", float(np.abs(pair_dists(g4) - pair_dists(g0)).max()))
+        if np.array_equal(w4, w) and np.abs(g4 - g1).max() > 0:
+            bad("psi4 text route differs from orient_molecule()", float(np.abs(g4 - g1).max()))
     # asymmetric top?
     mom = sorted([t[0][0], t[1][1], t[2][2]])
     gap = min(mom[1] - mom[0], mom[2] - mom[1])
@@ -337,6 +385,18 @@ def rnd_molecule(rng, shape):
         case["real"] = real
     if rng.random() < 0.25:
         case["extra"] = {"name": "probe", "comment": "c16", "extras": {"tag": 1}}
+    if rng.random() < 0.6:
+        fl = {}
+        if rng.random() < 0.6:
+            fl["fix_com"] = True
+        if rng.random() < 0.6:
+            fl["fix_orientation"] = True
+        if rng.random() < 0.25:
+            fl["fix_symmetry"] = "c1"
+        if rng.random() < 0.1:
+            fl["fix_com"] = False
+            fl["fix_orientation"] = False
+        case["flags"] = fl
     case["motion"] = rnd_motion(rng)
     return case
 
@@ -353,6 +413,10 @@ def gen_cases(ctx):
     cases.append({"stream": "corpus", "shape": "asym", "symbols": ["C", "H", "O", "N", "He"], "mass_numbers": [13, 2, 18, 14, 4],
                   "geom": z((0, 0, 0), (1, 2, 3), (-2, 1, "1/2"), ("3/10", -4, 1), ("11/5", "21/10", -3)),
                   "real": [True, True, False, True, True], "motion": {"q": [3, -1, 2, 1], "t": ["-1", "2", "5/8"]}})
+    for fl in ({"fix_com": True}, {"fix_orientation": True}, {"fix_com": True, "fix_orientation": True, "fix_symmetry": "c1"}):
+        cases.append({"stream": "corpus", "shape": "asym", "symbols": ["O", "H", "H", "F"], "flags": fl,
+                      "geom": z((0, 0, "-13/100"), (0, "-149/100", "103/100"), ("3/10", "149/100", "103/100"), (2, 1, -1)),
+                      "motion": {"q": [2, 1, -1, 3], "t": ["3/2", "-1", "1/4"]}})
     cases.append({"stream": "corpus", "shape": "diatomic", "symbols": ["He", "He"], "geom": z((0, 0, 0), (0, 0, 2)),
                   "motion": {"q": [1, 1, 0, 0], "t": ["0", "0", "0"]}})
     cases.append({"stream": "corpus", "shape": "atom", "symbols": ["Ne"], "geom": z((1, 2, 3)), "motion": {"q": [1, 0, 1, 0], "t": ["1", "1", "1"]}})
@@ -374,7 +438,7 @@ def judge(case):
 def correspond(ctx):
     corr = Corr()
     corr.rule = ("molecules of 1-12 atoms with rational coordinates in [-5,5] (denominators 1..10), random isotopes / explicit masses / "
-                 "ghost atoms, of shapes: generic (asymmetric), planar, linear, symmetric top, spherical top, diatomic, single atom; each "
+                 "ghost atoms, frame flags fix_com / fix_orientation (all four combinations) / fix_symmetry, of shapes: generic (asymmetric), planar, linear, symmetric top, spherical top, diatomic, single atom; each "
                  "also as a rigidly moved copy (rational rotation from an integer quaternion + translation). A case is non-trivial if it "
                  "has >= 2 atoms; distinct = distinct inputs")
     cases = gen_cases(ctx)
@@ -393,6 +457,12 @@ def correspond(ctx):
             corr.hit("with_ghosts")
         if case.get("mass_numbers") or case.get("masses"):
             corr.hit("with_isotopes_or_masses")
+        fl = case.get("flags") or {}
+        corr.hit("flags_com%d_orient%d" % (bool(fl.get("fix_com")), bool(fl.get("fix_orientation"))))
+        if fl.get("fix_symmetry"):
+            corr.hit("flags_symmetry")
+        if psi4_text(case, obs["g0"]) is not None:
+            corr.hit("route_psi4_text")
         if trm.pop("near_threshold", False):
             corr.hit("model_skipped_near_phase_threshold")
         if len(case["symbols"]) >= 2:
